@@ -51,7 +51,7 @@ def key(f):
     return f.name if f.name is not None else "_%d" % f.idx
 
 
-MID = {"crate::m::fmt_a": "crate::m::mid_fmt_a()", "crate::m::fmt_b": "crate::m::mid_fmt_b()"}
+MID = {"crate::m::fmt_a": "crate::m::mid_fmt_a()", "crate::m::fmt_b": "crate::m::mid_fmt_b()", "crate::m::fmt_g": "crate::m::mid_fmt_g()"}
 
 
 def _item_expr(f, var):
